@@ -184,6 +184,7 @@ def run_b(prop, tier, want_prof):
         for _ in range(N):
             ids = itertools.count(1)
             nd = gen(r, ids, r.choice([1, 2, 3, 4]))
+            common.tick()
             take_log()
             ds = build(nd, ld)
             built = take_log()
@@ -357,6 +358,7 @@ def keyed_checks(ld, r, tier, tag):
         for _ in range(N):
             ids = itertools.count(1)
             nd = gen_k(r, ids, r.choice([1, 2, 3, 4]))
+            common.tick()
             take_log()
             try:
                 ds = build_k(nd, ld)
